@@ -205,7 +205,7 @@ SPECS = {
         'rule': ('one run = one signing / tampering history over transactions created by real wallets (single-signer P2PKH / '
                  'P2WPKH / P2SH-P2WPKH and m-of-n P2SH / P2WSH / P2SH-P2WSH): sign with subsets of the right keys over several '
                  'calls, re-sign, sign with a foreign key, export / import as object, dict and raw, serialize -> parse -> re-attach '
-                 'values, 15 kinds of single-field tampering of the object and 6 of the wire form, and rounds in which the missing cosigners sign one per call in a drawn order; after every event verify() is compared with the reference '
+                 'values, 15 kinds of single-field tampering of the object and 6 of the wire form, rounds in which the missing cosigners sign one per call in a drawn order, and single-signer transactions rebuilt from public keys and signed with one address key per call; after every event verify() is compared with the reference '
                  'node\'s per-input count of valid signatures by distinct keys of the previous output\'s key set. Non-trivial: '
                  '>= 5 events and >= 1 successful library call; distinct = distinct event-log digests.'),
         'state_measure': 'distinct (witness type, m, n, #signers bucket, tampered, library verdict, node verdict, last hand-off form)',
